@@ -551,6 +551,42 @@ func (r *sessRun) nameRace(rounds int) {
 		}
 		r.stat("namerace_rounds")
 	}
+	// directed: the loser of a same-name race is parked right after its name check passed (ctl.exist.pass) while the winner
+	// registers completely; the loser's registration then fails further down the pipeline (stcp: the listener exists; tcp on
+	// a server-chosen port: the name table refuses the insert) and is rolled back - the incumbent's name stays taken
+	for vi, mk := range []func(string) *msg.NewProxy{
+		func(n string) *msg.NewProxy { return &msg.NewProxy{ProxyName: n, ProxyType: "stcp", Sk: "k"} },
+		func(n string) *msg.NewProxy { return &msg.NewProxy{ProxyName: n, ProxyType: "tcp", RemotePort: 0} },
+	} {
+		name := []string{"b", "c"}[vi]
+		loser, winner, third := ps[1], ps[0], ps[2]
+		g := sched.Arm("ctl.exist.pass", func(kv sched.KV) bool { return kv["run_id"] == loser.run })
+		lres := make(chan bool, 1)
+		go func() {
+			resp, err := loser.NewProxy(mk(name), 6*time.Second)
+			lres <- err == nil && resp.Error == ""
+		}()
+		_, hit := g.WaitHit(2 * time.Second)
+		wresp, werr := winner.NewProxy(mk(name), 3*time.Second)
+		wok := werr == nil && wresp.Error == ""
+		time.Sleep(50 * time.Millisecond)
+		g.Release()
+		lok := false
+		select {
+		case lok = <-lres:
+		case <-time.After(7 * time.Second):
+		}
+		time.Sleep(50 * time.Millisecond)
+		tresp, terr := third.NewProxy(mk(name), 3*time.Second)
+		tok := terr == nil && tresp.Error == ""
+		r.sink.Emit("drv", "drv.namerace.directed", "name", name, "hit", hit, "winner_ok", wok, "loser_ok", lok, "third_ok", tok)
+		r.stat("namerace_directed")
+		for _, p := range []*sessPeer{winner, loser, third} {
+			before := r.countEv("ctl.closeproxy.end")
+			_ = p.CloseProxy(name)
+			waitFor(500*time.Millisecond, func() bool { return r.countEv("ctl.closeproxy.end") > before })
+		}
+	}
 	for _, p := range ps {
 		p.Close()
 	}
